@@ -58,8 +58,17 @@ def run_group(cmd, timeout, capture="pipe", d=None):
         return -999, b"", b"TIMEOUT"
 
 
+class Inconclusive(Exception):
+    """the shuffle parse ran out of its budget: too many hosts with indistinguishable records (-N, bursts of
+    empty lines): neither accepted nor rejected"""
+
+
+SHUFFLE_BUDGET = 400000
+
+
 def parse_shuffle(out, seqs):
-    """is `out` an interleaving of the record sequences `seqs` with every record contiguous?"""
+    """is `out` an interleaving of the record sequences `seqs` with every record contiguous?
+    (DFS over the vectors of per-host positions, memoised; bounded: raises Inconclusive beyond SHUFFLE_BUDGET states)"""
     n = len(seqs)
     start = tuple([0] * n)
     failed = set()
@@ -71,6 +80,8 @@ def parse_shuffle(out, seqs):
         idx, pos = stack.pop()
         if idx in failed:
             continue
+        if len(failed) > SHUFFLE_BUDGET:
+            raise Inconclusive()
         if pos == len(out) and all(idx[h] == len(seqs[h]) for h in range(n)):
             return True
         failed.add(idx)
@@ -334,31 +345,48 @@ def exec_spec(ctx, prop, spec, pdsh, writer, d, real):
             re.compile(b"pdsh@[^\n]*\n")
         se = pat.sub(b"", se)
     for which, data, sel in (("stdout", so, 0), ("stderr", se, 1)):
-        whole, split, loose = [], [], []
-        for i, h in enumerate(targets):
-            prefix = (relay.py_label(c, i) + b": ") if labels else b""
-            pl = b"" if h in notrun else payloads[h][sel]
-            whole.append(records(prefix, pl))
-            split.append(records(prefix, pl, split_tail=True))
-            loose.append(records(prefix, pl, split_tail=True, split_all=True))
-        if parse_shuffle(data, whole):
-            continue
-        if parse_shuffle(data, split):
-            real["tail_split_raced"] += 1
-            if prop == "C06":
-                return ("tail-record-split",
-                        "real run: %s parses as whole records only if a host's tail label and tail data are "
-                        "taken as separate records (another host's record landed between them)" % which, case)
-            continue
-        # neither: bytes lost/duplicated/reordered, a wrong label, or a record torn apart.  C05 is about the
-        # bytes only: it still holds if the output is an interleaving once every label may stand apart
-        # from the line it precedes (atomicity of records is C06's business)
-        if prop == "C05" and parse_shuffle(data, loose):
-            real["records_torn_but_bytes_complete"] = real.get("records_torn_but_bytes_complete", 0) + 1
-            continue
-        return ("real-bytes-differ" if prop == "C05" else "real-record-torn",
-                "real run: pdsh's %s is not an interleaving of the hosts' labelled records" % which, case)
+      try:
+          whole, split, loose = [], [], []
+          for i, h in enumerate(targets):
+              prefix = (relay.py_label(c, i) + b": ") if labels else b""
+              pl = b"" if h in notrun else payloads[h][sel]
+              whole.append(records(prefix, pl))
+              split.append(records(prefix, pl, split_tail=True))
+              loose.append(records(prefix, pl, split_tail=True, split_all=True))
+          if parse_shuffle(data, whole):
+              continue
+          if parse_shuffle(data, split):
+              real["tail_split_raced"] += 1
+              if prop == "C06":
+                  return ("tail-record-split",
+                          "real run: %s parses as whole records only if a host's tail label and tail data are "
+                          "taken as separate records (another host's record landed between them)" % which, case)
+              continue
+          # neither: bytes lost/duplicated/reordered, a wrong label, or a record torn apart.  C05 is about the
+          # bytes only: it still holds if the output is an interleaving once every label may stand apart
+          # from the line it precedes (atomicity of records is C06's business)
+          if prop == "C05" and parse_shuffle(data, loose):
+              real["records_torn_but_bytes_complete"] = real.get("records_torn_but_bytes_complete", 0) + 1
+              continue
+          return ("real-bytes-differ" if prop == "C05" else "real-record-torn",
+                  "real run: pdsh's %s is not an interleaving of the hosts' labelled records" % which, case)
+      except Inconclusive:
+          # too ambiguous to attribute (many hosts, no labels, identical records): counted, not judged
+          real["inconclusive_parses"] = real.get("inconclusive_parses", 0) + 1
+          if total_len(payloads, targets, notrun, sel, labels, relay, c) != len(data):
+              return ("real-bytes-differ" if prop == "C05" else "real-record-torn",
+                      "real run: pdsh's %s has %d bytes, the hosts' labelled records add up to another number" %
+                      (which, len(data)), case)
     return (None, None, case)
+
+
+def total_len(payloads, targets, notrun, sel, labels, relay, c):
+    n = 0
+    for i, h in enumerate(targets):
+        prefix = (relay.py_label(c, i) + b": ") if labels else b""
+        pl = b"" if h in notrun else payloads[h][sel]
+        n += sum(len(r) for r in records(prefix, pl))
+    return n
 
 
 def real_tools(ctx):
